@@ -160,7 +160,14 @@ func (fs *ReaderFS) readErr(r io.Reader) error {
 	case err := <-errs:
 		return err
 	case <-done:
-		return nil
+		// every writer has finished. One of them may have queued its error just before: both cases were ready then,
+		// and this one was picked at random
+		select {
+		case err := <-errs:
+			return err
+		default:
+			return nil
+		}
 	}
 }
 
